@@ -227,14 +227,25 @@ def reference(prog, max_worlds=1 << 12, extra_queries=(), want_joint=False, full
     joint = {} if want_joint else None
     watch = set(i for _, i in qi) | set(i for i, _ in ei)
     # ground rules with a negative literal whose head predicate is on a positive cycle: is the body ever true?
-    cand = [(ai(h), tuple(ai(a) for a in pos), tuple(ai(a) for a in neg)) for h, pos, neg, ch in rrules if neg]
-    cand_cyc = [h[0] in cyc_preds for h, pos, neg, ch in rrules if neg]
+    # ... or, without a negative literal of its own, with a body atom whose definition involves negation (d1(X) :- f0(X), d0.  with
+    # d0 :- \\+f0(2).): the body can be contradictory through the definitions
+    negreach = set()
+    changed = True
+    while changed:
+        changed = False
+        for h, pos, neg, ch in rrules:
+            if h not in negreach and (neg or any(a in negreach for a in pos)):
+                negreach.add(h)
+                changed = True
+    sel = [bool(neg) or any(a in negreach for a in pos) for h, pos, neg, ch in rrules]
+    cand = [(ai(h), tuple(ai(a) for a in pos), tuple(ai(a) for a in neg)) for (h, pos, neg, ch), k in zip(rrules, sel) if k]
+    cand_cyc = [h[0] in cyc_preds for (h, pos, neg, ch), k in zip(rrules, sel) if k]
     alive = [False] * len(cand)
     for combo in itertools.product(*[range(len(groups[g])) for g in rgroups]):
         w = F(1)
         for g, o in zip(rgroups, combo):
             w *= groups[g][o]
-        if w == 0:
+        if w == 0 and all(alive):
             continue
         rules = list(det)
         for g, o in zip(rgroups, combo):
@@ -244,6 +255,8 @@ def reference(prog, max_worlds=1 << 12, extra_queries=(), want_joint=False, full
         for k, (h, pos, neg) in enumerate(cand):
             if not alive[k] and all(a in true for a in pos) and not any(a in true for a in neg):
                 alive[k] = True
+        if w == 0:
+            continue          # a world of probability 0 only counts for the question whether a body can ever hold
         if undef:
             R.any_undefined = True
             if undef & watch:
